@@ -152,6 +152,7 @@ def classifiers():
     add("cboss", lambda: ContractableBOSS(n_parameter_samples=5, max_ensemble_size=3, random_state=0), cost="slow")
     add("rise", lambda: RandomIntervalSpectralForest(n_estimators=4, min_interval=4, acf_lag=6, acf_min_values=2, random_state=0))
     add("stsf", lambda: SupervisedTimeSeriesForest(n_estimators=4, random_state=0))
+    add("stsf10", lambda: SupervisedTimeSeriesForest(n_estimators=10, random_state=1))
     # word selection by chi-squared test switched off (p_threshold=1): with it, a panel in which no word is
     # significant leaves MUSE without features (open finding MUSE-empty-bag, exercised by C17 only)
     add("muse", lambda: MUSE(p_threshold=1, random_state=0))
